@@ -64,6 +64,16 @@ func program(name, server string) (setup, burst [][]byte, files map[string]strin
 		setup = [][]byte{mustPkt(&sshFxpOpenPacket{ID: 1, Path: nm("f"), Pflags: sshFxfRead})}
 		burst = [][]byte{rd(10, "1", 0, 2), mustPkt(&sshFxpMkdirPacket{ID: 11, Path: nm("newdir")}), mustPkt(&sshFxpRmdirPacket{ID: 12, Path: nm("newdir")}),
 			mustPkt(&sshFxpRemovePacket{ID: 13, Filename: nm("g")}), mustPkt(&sshFxpFstatPacket{ID: 14, Handle: "1"}), rd(15, "1", 2, 2)}
+	case "rorefuse": // read-only server: refused requests whose ids run over the small numbers the server uses to count its requests, behind a read whose reply has to wait
+		setup = [][]byte{mustPkt(&sshFxpOpenPacket{ID: 1, Path: nm("f"), Pflags: sshFxfRead})}
+		long := nm(strings.Repeat("Z", 200))
+		// INIT, OPEN, LSTAT and READ are the server's requests 1-4: the refused MKDIR carries the id 4
+		burst = [][]byte{mustPkt(&sshFxpLstatPacket{ID: 60, Path: nm("g")}), rd(61, "1", 0, 8), mustPkt(&sshFxpMkdirPacket{ID: 4, Path: nm("newdir")})}
+		for id := uint32(70); id < 76; id++ {
+			burst = append(burst, mustPkt(&sshFxpLstatPacket{ID: id, Path: long}))
+		}
+		burst = append(burst, rd(64, "1", 8, 8))
+		files[long] = "long"
 	case "reads6": // more parallel requests in flight than there are workers (at W=2): responses pile up behind a slow first one
 		setup = [][]byte{mustPkt(&sshFxpOpenPacket{ID: 1, Path: nm("f"), Pflags: sshFxfRead})}
 		burst = [][]byte{rd(10, "1", 0, 2), rd(11, "1", 2, 2), rd(12, "1", 4, 2), rd(13, "1", 6, 2), rd(14, "1", 8, 2), rd(15, "1", 10, 2)}
@@ -218,7 +228,7 @@ func describeClash(a, b int64) string {
 
 // progDeterministic: programs whose response bytes are the same under every schedule (no read races a write, listings of
 // directories nobody changes); their responses are compared byte for byte with a reference run in C02 as well.
-var progDeterministic = map[string]bool{"attrpipe": true, "twodirs": true, "reads6": true, "reads12": true, "longlen": true, "pathkeep": true, "bigread": true}
+var progDeterministic = map[string]bool{"rorefuse": true, "attrpipe": true, "twodirs": true, "reads6": true, "reads12": true, "longlen": true, "pathkeep": true, "bigread": true}
 
 type progOpts struct {
 	readOnly     bool
@@ -242,7 +252,7 @@ func responseBytes(fs []frame) [][]byte {
 func progScenario(o progOpts, prop string) explore.Scenario {
 	return func() (func(), func(*vsched.Exec) explore.Verdict) {
 		setup, burst, files := program(o.name, o.server)
-		spec := &srvSpec{server: o.server, alloc: o.alloc, setup: setup, burst: burst, files: files, hangup: -1, readOnly: o.readOnly, maxTx: o.maxTx, txFirst: o.txFirst, putOnly: o.putOnly}
+		spec := &srvSpec{server: o.server, alloc: o.alloc, setup: setup, burst: burst, files: files, hangup: -1, readOnly: o.readOnly, maxTx: o.maxTx, txFirst: o.txFirst, putOnly: o.putOnly, rdvOut: o.name == "rorefuse"} // rorefuse: a peer that takes each reply only when it gets round to it (writes to it block until then)
 		var r *srvRun
 		var usedAtQuiescence, usedKeyOK = -1, true
 		body := func() {
@@ -346,11 +356,11 @@ func (r *srvRun) driveQ(atQuiescence func()) {
 }
 
 // reference runs the program once with the allocator off under the default schedule.
-func progReference(server, name string, maxTx uint32, putOnly bool) [][]byte {
+func progReference(server, name string, maxTx uint32, putOnly, readOnly bool) [][]byte {
 	var ref [][]byte
 	sc := func() (func(), func(*vsched.Exec) explore.Verdict) {
 		setup, burst, files := program(name, server)
-		spec := &srvSpec{server: server, setup: setup, burst: burst, files: files, hangup: -1, maxTx: maxTx, putOnly: putOnly}
+		spec := &srvSpec{server: server, setup: setup, burst: burst, files: files, hangup: -1, maxTx: maxTx, putOnly: putOnly, readOnly: readOnly}
 		var r *srvRun
 		return func() { r = spec.start(); r.drive() }, func(e *vsched.Exec) explore.Verdict {
 			ref = responseBytes(r.frames)
@@ -372,10 +382,10 @@ func runProgs(c *reg.Ctx, prop string, alloc, compare bool) *reg.Result {
 			total.Exhaustive = false
 			break
 		}
-		o := progOpts{server: server, name: name, alloc: alloc, quiesce: alloc, readOnly: name == "romix", maxTx: uint32(c.ArgInt("maxtx", 0)), txFirst: c.Arg("txfirst", "0") == "1", putOnly: c.Arg("putonly", "0") == "1"}
+		o := progOpts{server: server, name: name, alloc: alloc, quiesce: alloc, readOnly: name == "romix" || name == "rorefuse", maxTx: uint32(c.ArgInt("maxtx", 0)), txFirst: c.Arg("txfirst", "0") == "1", putOnly: c.Arg("putonly", "0") == "1"}
 		if compare || progDeterministic[name] {
 			// the expected response bytes do not depend on the schedule: compared with a reference run (default schedule, no allocator)
-			o.ref = progReference(server, name, o.maxTx, o.putOnly)
+			o.ref = progReference(server, name, o.maxTx, o.putOnly, o.readOnly)
 		}
 		r := explore.Run(explore.Config{Prop: prop, Strategy: c.Arg("strategy", "db"), Bound: c.ArgInt("bound", 2), Ctx: c, Label: c.Part}, progScenario(o, prop))
 		total.Evaluations += r.Evaluations
@@ -519,6 +529,7 @@ func init() {
 					{Part: "C18/pair", Build: "instr-w2", Args: map[string]string{"server": "os", "bound": "2"}, Shards: 16, BudgetS: 600, Label: "os W=2 db2 two servers from one option list"},
 					pj("C18/sched", "rs W=2 db3 attribute blocks decoded late", "instr-w2", "rs", "attrpipe", 3, 600, true),
 					pj("C18/sched", "os W=2 db3 attribute blocks decoded late", "instr-w2", "os", "attrpipe", 3, 600, true),
+					pj("C18/sched", "os read-only W=2 db3 refused requests with small ids behind a waiting read", "instr-w2", "os", "rorefuse", 3, 600, true),
 				}
 			} else {
 				js = []reg.Job{
@@ -536,6 +547,7 @@ func init() {
 					{Part: "C18/pair", Build: "instr-w2", Args: map[string]string{"server": "os", "bound": "1"}, Shards: 16, BudgetS: 100, Label: "os W=2 db1 two servers from one option list"},
 					pj("C18/sched", "rs W=2 db2 attribute blocks decoded late", "instr-w2", "rs", "attrpipe", 2, 100, true),
 					polcap(pj("C18/sched", "os W=2 db2 attribute blocks decoded late", "instr-w2", "os", "attrpipe", 2, 100, true), 1),
+					polcap(pj("C18/sched", "os read-only W=2 db2 refused requests with small ids behind a waiting read", "instr-w2", "os", "rorefuse", 2, 100, true), 1),
 				}
 			}
 			js = withPolicies(tier, js, func(j reg.Job) bool { return j.Args["server"] != "os" })
